@@ -57,7 +57,7 @@ class OM:
         if self.kind == "str":
             return (self.data + b"\0").hex()
         if self.kind == "dom":
-            return self.data.hex()
+            return self.data.hex() or "-"       # the executor prints '-' for no bytes
         return None      # not compared
 
 
@@ -90,6 +90,7 @@ class World:
         # entries in the upper half of the index range (network variables, profile area)
         addint(0xA000, 0, RW, 4); addint(0xA000, 1, R, 2); addint(0xA580, 0, RW, 1); addint(0xFFFF, 0, RW, 4)
         lens = [1, 2, 3, 4, 5, 7, 8, 14, 15, 100] + ([] if small else [rng.choice([255, 256, 300]), rng.choice([888, 889, 890]), 1000])
+        lens.append(0)                # an empty string is a readable object of length 0
         for i, ln in enumerate(lens):
             d = gen.rand_nonzero_bytes(rng, ln)
             cfg.add(string(0x2110, i, d)); m[(0x2110, i)] = OM(0x2110, i, "str", R, data=d)
@@ -103,6 +104,8 @@ class World:
         cfg.add(domain(0x2121, 0, 30, d, flags=R)); m[(0x2121, 0)] = OM(0x2121, 0, "dom", R, data=d)
         d = gen.rand_bytes(rng, 30)
         cfg.add(domain(0x2121, 1, 30, d, flags=W)); m[(0x2121, 1)] = OM(0x2121, 1, "dom", W, data=d)
+        # and so is a (read-only) domain that holds nothing at the moment, e.g. an empty log
+        cfg.add(domain(0x2122, 0, 0, b"", flags=R)); m[(0x2122, 0)] = OM(0x2122, 0, "dom", R, data=b"")
         # user type objects: (size, rderr, wrerr, abort)
         usr = [(4, 0, 0, 0), (4, S.ERR["OBJ_READ"], S.ERR["OBJ_WRITE"], 0), (2, S.ERR["OBJ_RANGE"], S.ERR["OBJ_RANGE"], 0),
                (4, S.ERR["OBJ_MAP_TYPE"], S.ERR["OBJ_MAP_TYPE"], 0), (4, S.ERR["OBJ_MAP_LEN"], S.ERR["OBJ_MAP_LEN"], 0),
@@ -318,7 +321,7 @@ def c02_shared_object_witness(res, ctx):
         r = run.step(0, bytes([0x11]) + payload[7:])
         res.evals += 1
         confirmed = len(r) == 1 and r[0][0] == 0x30
-        act = bytes.fromhex(sim.dump()[world.order.index((o.idx, o.sub))])
+        act = bytes.fromhex(sim.dump()[world.order.index((o.idx, o.sub))].replace("-", ""))
         if confirmed and act[:14] != payload:
             res.violation("c02/shared-object/offset", "download of 14 bytes to %04x:%02x on server 0 confirmed, an upload of the same object was started on server 1 "
                           "after the first segment: object holds %s.., transmitted %s" % (o.idx, o.sub, act[:14].hex(), payload.hex()), sim=sim)
@@ -536,7 +539,7 @@ def c03_work(item, ctx):
                 if mode == "blk" and kind != "enum" and rng.random() < 0.12:
                     # the CAN driver refuses one data segment of the first block (transmit queue full): for the client this is a lost
                     # segment - it acknowledges what it got in sequence and the server has to send the rest again
-                    nfirst = min(opts["blksize"], (o.size() + 6) // 7)
+                    nfirst = max(1, min(opts["blksize"], (o.size() + 6) // 7))
                     kf = 1 + rng.choice([1, nfirst, nfirst, rng.randint(1, nfirst)])
                     sim.cmd("fault cansend %d" % kf)
                     opts = dict(opts, lost_fn=lambda: run.last_failed)
